@@ -11,7 +11,7 @@
 #include "Template.hpp"
 #include "vf.h"
 using namespace Qentem;
-typedef Value<char> V; typedef FixedStream<char, 96> SS;
+typedef Value<char> V; typedef FixedStream<char, 128> SS;
 #ifndef TPL
 #define TPL "{var:a}"
 #endif
